@@ -1166,5 +1166,86 @@ theorem roundTrips_of_mesh [BEq α] [LawfulBEq α] (c : Coding α) (cfg : Writer
     simp [hc1, hc2, hmm]
 
 
+/-! ## the claim stage, checked: a decidable certificate for `ClaimOK` -/
+
+/-- header position of a property name -/
+def posOf (props : List (Bytes × SType)) (n : Bytes) : Nat := props.findIdx (fun p => p.1 = n)
+
+def locatedNamedB (props : List (Bytes × SType)) (b : Built) (idxs : List Nat) : Bool :=
+  match b.ty with
+  | none => false
+  | some t =>
+    idxs.all (fun i => (props[i]?).map (·.2) == some t) &&
+    b.offs == idxs.map (offsetOf (props.map (·.2))) &&
+    idxs.length == b.names.length &&
+    (idxs.zip b.names).all (fun x => (props[x.1]?).map (·.1) == some x.2)
+
+theorem locatedNamedB_sound (props : List (Bytes × SType)) (b : Built) (idxs : List Nat)
+    (h : locatedNamedB props b idxs = true) : LocatedNamed props b idxs := by
+  simp only [locatedNamedB] at h
+  cases hty : b.ty with
+  | none => simp [hty] at h
+  | some t =>
+    simp only [hty, Bool.and_eq_true, List.all_eq_true, beq_iff_eq] at h
+    obtain ⟨⟨⟨h1, h2⟩, h3⟩, h4⟩ := h
+    refine ⟨⟨⟨t, hty, ?_⟩, h2⟩, h3, ?_⟩
+    · intro i hi
+      have := h1 i hi
+      cases hp : props[i]? with
+      | none => simp [hp] at this
+      | some p =>
+        obtain ⟨hi', hpe⟩ := List.getElem?_eq_some_iff.mp hp
+        simp [hp] at this
+        exact ⟨by simpa using hi', by simp [hpe, this]⟩
+    · intro k hk hk'
+      have hmem : (idxs[k], b.names[k]) ∈ idxs.zip b.names := by
+        have : (idxs.zip b.names)[k]'(by simp; omega) = (idxs[k], b.names[k]) := by simp
+        rw [← this]; exact List.getElem_mem _
+      exact h4 _ hmem
+
+def demandedB (ws : List WProp) (bl : List (Built × List Nat)) : Bool :=
+  ws.all (fun w => !comesBack w ||
+    (List.range bl.length).any (fun j =>
+      match bl[j]? with
+      | none => false
+      | some p =>
+        p.1.attr == w.attr && p.1.names == w.names &&
+        (List.range bl.length).all (fun j' => !decide (j < j') ||
+          match bl[j']? with
+          | none => true
+          | some p' => decide (Built.key p'.1 ≠ Built.key p.1))))
+
+/-- the certificate: locate every built reader by name lookup and check everything `ClaimOK` asks for -/
+def claimCheck (cfg : WriterCfg) (m : MeshVal α) : Option (List (Built × List Nat)) :=
+  let props := headerProps (selectWriters cfg m)
+  let bl := (buildAll true props defaultReaders true).map (fun b => (b, b.names.map (posOf props)))
+  if bl.all (fun p => locatedNamedB props p.1 p.2) && demandedB (selectWriters cfg m) bl then some bl else none
+
+theorem claimCheck_sound (cfg : WriterCfg) (m : MeshVal α) (bl : List (Built × List Nat))
+    (h : claimCheck cfg m = some bl) : ClaimOK cfg m bl := by
+  simp only [claimCheck] at h
+  split at h
+  · rename_i hc
+    simp at h
+    subst h
+    simp only [Bool.and_eq_true, List.all_eq_true] at hc
+    obtain ⟨hl, hd⟩ := hc
+    refine ⟨by simp [Function.comp_def], fun p hp => locatedNamedB_sound _ _ _ (hl p hp), ?_⟩
+    intro w hw hcb
+    simp only [demandedB, List.all_eq_true] at hd
+    have := hd w hw
+    simp only [hcb, Bool.not_true, Bool.false_or, List.any_eq_true, List.mem_range] at this
+    obtain ⟨j, hj, hjj⟩ := this
+    rw [List.getElem?_eq_getElem hj] at hjj
+    simp only [Bool.and_eq_true, beq_iff_eq, List.all_eq_true, List.mem_range] at hjj
+    obtain ⟨⟨ha, hn⟩, hlast⟩ := hjj
+    refine ⟨j, hj, ha, hn, ?_⟩
+    intro j' hj' hlt
+    have := hlast j' hj'
+    rw [List.getElem?_eq_getElem hj'] at this
+    simpa [hlt] using this
+  · simp at h
+
+
 end PlyCompose
 end PolyVerif
